@@ -1,11 +1,13 @@
 /* proof units for lbuf_region / vi_yank / vi_delete of /repo/vi.c.
  * MECHANICAL EXTRACTION (redone on every run by run.py, unit key "extract"): vi.c's preprocessor
- * lines, the declaration line of vi_ybuf and the verbatim text of the functions named in the unit (lbuf_region, vi_yank, vi_delete, vi_pipe); everything
+ * lines, the declaration line of vi_ybuf and the verbatim text of the functions named in the unit (lbuf_region, vi_yank, vi_delete, vi_pipe, vi_change); everything
  * else of vi.c is dropped.  Callees are declared here and stubbed in vidy.spec.h. */
 #include "pre.h"
 static void vi_drawfix(int r1, int r2, int n, int preview);
 static char *vi_prompt(char *msg, int *kmap, char *hist);
 static char *reg_getln(int h);
+static char *vi_indents(char *ln);
+static char *vi_input(char *pref, char *post, int *row, int *off);
 static void reg_putln(int h, char *s);
 #include EXTRACT_FILE
 #include "libc.spec.h"
